@@ -174,6 +174,21 @@ pub fn c02(out: &mut Vec<String>, rng: &mut Rng, tier: &str) {
             k += step;
         }
     }
+    // counts at the very top of the usize range
+    for (n, k) in [(usize::MAX, usize::MAX), (usize::MAX, usize::MAX - 1), (usize::MAX, usize::MAX - 2), (usize::MAX - 3, usize::MAX - 9),
+                   (usize::MAX - 9, usize::MAX - 12), (usize::MAX, 5), (usize::MAX - 1, usize::MAX)] {
+        for kind in 0..3u64 {
+            out.push(format!("C02 {}", nk_line(conf_of(kind, 0.9), n, k)));
+        }
+    }
+    // rates whose product with the population is beyond 2^64, infinite or NaN; populations near usize::MAX
+    for (n, r) in [(10usize, 2e18f64), (100, 1e18), (7, f64::INFINITY), (7, f64::MAX), (12, f64::NAN), (usize::MAX - 5, 1.0), (usize::MAX, 0.5)] {
+        for kind in 0..3u64 {
+            let conf = conf_of(kind, 0.9);
+            let o = guarded(|| enc_cires(&proportion::ci_wilson_ratio(conf, n, r)));
+            out.push(format!("C02 ratio p {} {} {} - => {}", enc_conf(&conf), n, r.enc(), o));
+        }
+    }
     // products beyond 2^52 (where x + 0.5 is no longer exact) and just below a half
     for (n, r, k) in [
         ((1usize << 52) + 1, 1.0f64, (1usize << 52) + 1),
@@ -578,6 +593,34 @@ pub fn c12(out: &mut Vec<String>, _rng: &mut Rng, tier: &str) {
                         Ok(Interval::UpperOneSided(a)) => line.push_str(&format!(" {} -", a)),
                         Ok(Interval::LowerOneSided(bb)) => line.push_str(&format!(" - {}", bb)),
                         Err(_) => line.push_str(" x x"),
+                    }
+                }
+                out.push(line);
+            }
+        }
+    }
+    // proportion intervals of a running Stats fed in two or three batches (extend, extend_if, add_*)
+    for n in [30usize, 60, 150] {
+        for l in levels {
+            for kind in 0..3 {
+                let conf = conf_of(kind, l);
+                let mut line = format!("C12 cover b {} {} =>", enc_conf(&conf), n);
+                for k in 0..=n {
+                    let mut st = proportion::Stats::default();
+                    let n1 = n / 3;
+                    let k1 = k.min(n1);
+                    let b1: Vec<bool> = (0..n1).map(|i| i < k1).collect();
+                    st.extend(&b1);
+                    let n2 = n / 3;
+                    let k2 = (k - k1).min(n2);
+                    let b2: Vec<u32> = (0..n2).map(|i| if i < k2 { 1 } else { 0 }).collect();
+                    st.extend_if(&b2, |x| *x == 1);
+                    for i in 0..(n - n1 - n2) {
+                        if i < k - k1 - k2 { st.add_success() } else { st.add_failure() }
+                    }
+                    match st.ci(conf) {
+                        Ok(Interval::TwoSided(a, bb)) => line.push_str(&format!(" {} {}", a.enc(), bb.enc())),
+                        _ => line.push_str(" - -"),
                     }
                 }
                 out.push(line);
